@@ -339,6 +339,30 @@ def check(ctx):
         ctx.ob("R4", f"{rel}:{q}", "command text is wrapped through tools.subproc_toks (one wrapper for phase 1 and phase 2)", ok, key=f"{q}|wrapper-not-used")
 
 
+    # R4 (cont.): what is put back into the source is the wrapper's result itself.  Between wrapping and
+    # re-insertion the text is only *inspected*: an edit (strip, slice, replace ...) changes which branch of
+    # replace_logical_line handles it - its blind re-split at blanks is not string-aware and is kept
+    # dormant by the trailing newline of the recursive result.
+    tpdefs = df.all_defs(tp)
+    rl_calls = [c for c in calls_in(tp) if call_name(c) == "replace_logical_line"]
+    if len(rl_calls) < 2:
+        raise AnalysisError(f"{EX}:_try_parse: expected two replace_logical_line call sites, found {len(rl_calls)}")
+    for c in rl_calls:
+        arg = c.args[1] if len(c.args) > 1 else None
+        ok, why = False, "the re-inserted text is not a plain local"
+        if isinstance(arg, ast.Name):
+            ds = tpdefs.get(arg.id, [])
+            srcs = []
+            for d in ds:
+                v = d.value
+                if isinstance(v, ast.Call) and (call_name(v) in ("subproc_toks", "self._parse_ctx_free")):
+                    srcs.append(call_name(v))
+                else:
+                    srcs.append(f"EDIT `{short(d.stmt, 50)}`")
+            ok = bool(srcs) and not any(s_.startswith("EDIT") for s_ in srcs)
+            why = None if ok else "; ".join(s_ for s_ in srcs if s_.startswith("EDIT"))
+        ctx.ob("R4", f"{EX}:Execer._parse_ctx_free._try_parse", f"`{short(c, 60)}` re-inserts exactly what subproc_toks / the recursive wrap returned (inspected, never edited, in between)", ok, key="reinsert|edited-wrapper-result", where=loc(c), detail=why)
+
     # ------------------------------------------------------------------ R5
     # logical-line joining asks one lexical question — "is a triple-quoted string open at the end
     # of this text?" — and only a left-to-right scan that knows comments, ordinary strings and the
